@@ -875,7 +875,15 @@ impl DPEventLoop {
 
     new_reader.set_requested_deadline_check_timer();
     trace!("Add reader: {:?}", new_reader);
+    let topic_name = new_reader.topic_name().clone();
     self.message_receiver.add_reader(new_reader);
+
+    // Discovery may have found writers on this topic before the reader was
+    // created. They are not going to be announced again, so match them now.
+    let known_writers = discovery_db_read(&self.discovery_db).external_writers_on_topic(&topic_name);
+    for dwd in known_writers {
+      self.remote_writer_discovered(&dwd);
+    }
   }
 
   fn remove_local_reader(&mut self, reader_guid: GUID) {
@@ -935,7 +943,15 @@ impl DPEventLoop {
       )
       .expect("Writer command channel registration failed!!");
 
+    let topic_name = new_writer.topic_name().clone();
     self.writers.insert(new_writer.guid().entity_id, new_writer);
+
+    // Discovery may have found readers on this topic before the writer was
+    // created. They are not going to be announced again, so match them now.
+    let known_readers = discovery_db_read(&self.discovery_db).external_readers_on_topic(&topic_name);
+    for drd in known_readers {
+      self.remote_reader_discovered(&drd);
+    }
   }
 
   fn remove_local_writer(&mut self, writer_guid: &GUID) {
